@@ -27,6 +27,9 @@ THash == /\ IsEvent("hash") /\ Keep
             /\ (Ev.alg = "sha256" /\ Len(m) <= REFMAX) => d = R!Sha256Ref(m)
             /\ Ev.counts = Sums(Ev.cuts, 1, 0)
             /\ Ev.zero
+\* very long messages (the context's bit counter carries into its high word): a periodic pattern fed in chunks, the digest of the
+\* same pattern computed by the JDK
+THashBig == IsEvent("hashbig") /\ Keep /\ B(Ev.digest) = DigestOfPattern(Ev.alg, Ev.len) /\ Ev.zero
 THmac == /\ IsEvent("hmac") /\ Keep
          /\ LET d == H!Hmac(Ev.alg, B(Ev.key), B(Ev.msg)) IN B(Ev.digest) = d /\ B(Ev.oneshot) = d /\ Ev.zero
 TPbkdf2 == IsEvent("pbkdf2") /\ Keep /\ B(Ev.out) = H!Pbkdf2(B(Ev.pass), B(Ev.salt), Ev.c, Ev.dklen)
@@ -100,6 +103,6 @@ TSig == /\ IsEvent("sig") /\ Keep /\ Ev.rc = 0
              [] OTHER -> B(Ev.query) = V!S3Query(B(Ev.keyid), B(Ev.secret), B(Ev.region), B(Ev.a), B(Ev.b), B(Ev.c), Ev.expiry, t)
 \* C20: a failed (or successful) key-file read never hands memory holding the secret back to the allocator
 TKeyfile == IsEvent("keyfile") /\ Keep /\ Ev.tainted = 0
-Next == TReset \/ THash \/ THmac \/ TPbkdf2 \/ TCrc \/ TAes \/ TAesExpand \/ TFreshEnd \/ TCtr \/ TDhPub \/ TDhKey \/ TDhSane \/ TEntropy \/ TDrbgRead \/ TDrbgEnd \/ TSig \/ TKeyfile
+Next == TReset \/ THash \/ THashBig \/ THmac \/ TPbkdf2 \/ TCrc \/ TAes \/ TAesExpand \/ TFreshEnd \/ TCtr \/ TDhPub \/ TDhKey \/ TDhSane \/ TEntropy \/ TDrbgRead \/ TDrbgEnd \/ TSig \/ TKeyfile
 Spec == Init /\ [][Next]_vars
 =============================================================================
